@@ -302,7 +302,7 @@ class TooManyFailures(Exception):
 
 
 def check_delivery(res, ep, frames, segments, label, case):
-    if sum(1 for v in res.violations if v["class"] == "segmentation") >= 5:
+    if res.hist.get("segmentation_failures", {}).get("n", 0) >= 5:
         raise TooManyFailures
     before = len(ep.got)
     ep.feed(segments)
@@ -314,6 +314,7 @@ def check_delivery(res, ep, frames, segments, label, case):
     if not ok or have != want:
         what = "delivered blocks differ from the frames sent (lost / duplicated / merged / reordered)" if ok else \
             "not all frames were delivered within 5 s or bytes were left in the receive buffer"
+        res.bump("segmentation_failures", "n")
         res.violate("segmentation", what, case, [" ".join(map(str, v)) + " " + hexs(b)[:40] for v, b in want][:6],
                     [" ".join(map(str, h)) + " " + hexs(b)[:40] for h, b in have][:6])
         return False
